@@ -4,5 +4,5 @@ S=/verif/seeded/$1; T=${2:-quick}
 P=$(python3 -c "import json;print(json.load(open('$S/meta.json'))['property'])")
 git -C /repo apply $S/patch.diff 2>/dev/null || git -C /repo apply -C1 $S/patch.diff 2>/dev/null || (cd /repo && patch -p1 -F3 -s < $S/patch.diff) || exit 2
 (cd /verif && bin/vcheck check --property $P --tier $T) > /tmp/seedrun_$1.log 2>&1; RC=$?
-git -C /repo checkout -- .
+git -C /repo checkout -- .; git -C /repo clean -fdq -- "*.orig" "*.rej" 2>/dev/null; find /repo -name "*.orig" -o -name "*.rej" | xargs -r rm -f
 echo "$1 property=$P exit=$RC"; grep -c "^VIOLATION" /tmp/seedrun_$1.log; grep "^VIOLATION" /tmp/seedrun_$1.log | cut -c1-330 | head -5
